@@ -65,6 +65,14 @@ def build(cfg):
     if k == "doubleexp":
         kw["tc_decay"] = cfg["tau"]
         kw["tc_rise"] = cfg["tauR"]
+    if cfg.get("ctor_dt") is not None and cfg["ctor_dt"] != cfg["dt"]:
+        # the step time is ASSIGNED after construction (`synapse.dt = …`), then the synapse is cleared: whatever the constructor
+        # derived from the step time (decay factors, pulse sizes, record lengths) must follow the assignment
+        syn = CLS[k](tuple(cfg["shape"]), cfg["ctor_dt"], **dict(kw, delay=cfg["delay"] / cfg["dt"] * cfg["ctor_dt"]))
+        syn.dt = cfg["dt"]
+        syn.delay = cfg["delay"]
+        syn.clear()
+        return syn
     return CLS[k](tuple(cfg["shape"]), cfg["dt"], **kw)
 
 
@@ -333,6 +341,14 @@ def boundary_cases(rng, T):
                         i += 1
                         cfg["steps"] = make_steps(rng, cfg, T, 6, fam=FAMS)
                         cases.append(cfg)
+    # every class once more with the step time ASSIGNED after construction (delay 0 and multi-step)
+    for kind in KINDS:
+        for dmul in (0.0, 3.0):
+            cfg = base_cfg(rng, kind, dmul, rng.choice("PN"), 0.0, False, inplace=bool(i % 2), seldim=True)
+            i += 1
+            cfg["ctor_dt"] = 2.0 if cfg["dt"] != 2.0 else 0.5
+            cfg["steps"] = make_steps(rng, cfg, T, 3, fam=FAMS)
+            cases.append(cfg)
     return cases
 
 
@@ -345,6 +361,8 @@ def random_case(rng, T):
     if rng.random() < 0.2:      # mixed: overbound value for one, None for the other
         cfg["curOver"] = rng.choice([None, -2.0])
         cfg["spkOver"] = rng.choice([None, True, False])
+    if rng.random() < 0.25:     # step time assigned after construction
+        cfg["ctor_dt"] = rng.choice([d for d in (0.25, 0.5, 1.0, 2.0) if d != cfg["dt"]])
     cfg["steps"] = make_steps(rng, cfg, T, rng.choice([1, 2, 4]), clear_at=rng.randrange(T) if rng.random() < 0.3 else None,
                               query_every=rng.choice([1, 1, 2]))
     return cfg
@@ -446,6 +464,7 @@ def explore(ctx) -> Exploration:
     for cfg, obs, rsz, spans in plan:
         ex.traces_validated += len(spans)
         ex.count("class", cfg["kind"])
+        ex.count("step time set by", "setter after construction" if cfg.get("ctor_dt") not in (None, cfg["dt"]) else "constructor")
         ex.count("delay/dt", str(cfg["delay"] / cfg["dt"]))
         ex.count("tolerance/dt", str(cfg["tol"] / cfg["dt"]))
         ex.count("overbound", f"cur={'None' if cfg['curOver'] is None else 'value'},spk={'None' if cfg['spkOver'] is None else 'value'}")
